@@ -783,3 +783,71 @@ def argument_after_release(prog, chk, rid, fams=("Variant", "Xml::Variant", "Ref
             else:
                 chk.ok(rid, f, "everything is taken from the argument before the own payload is released", where,
                        "no release event reaches a read of `%s`" % other["n"], evals=len(rel) * max(1, len(reads)))
+
+
+# ----------------------------------------------------------------------------- every acquired reference is kept
+
+def increment_is_kept(prog, chk, rid, fams=tuple(FAMILIES), floor=6):
+    """an increment counts a new handle: on every path through it the handle's pointer is (or has been) set to the very block whose
+    counter was raised - otherwise the count stays one too high for ever and the block is never released"""
+    chk.rule(rid, "PAIRF: every path through `Atomic::increment(X->ref)` in a handle member also passes a store of X into the handle's "
+                  "pointer (before or after it)", floor=floor)
+    for fam in fams:
+        d = FAMILIES[fam]
+        ptr = d["ptr"]
+        for f in family_functions(prog, fam):
+            incs = atomic_calls(f, "increment")
+            if not incs:
+                continue
+            defs = q.local_defs(f)
+            writes = [w for w in q.field_writes(f, ptr, "this") if w.rhs is not None]
+            for i, x in incs:
+                ipos = f.node_pos(i)
+                if ipos is None:
+                    continue
+                names = {x, q.no_casts(q.xr(f, f.nodes[i]["c"][1] if len(f.nodes[i]["c"]) > 1 else i, defs))}
+                keep = []
+                for w in writes:
+                    rt = q.no_casts(C.norm(f, w.rhs, {}, defs))
+                    raw = q.no_casts(f.r(w.rhs))
+                    if any(same_obj(nm, rt) or same_obj(nm, raw) or same_obj(nm, "this->" + ptr) and w.pos == ipos for nm in names) or \
+                       same_obj(x, "this->" + ptr) or same_obj(expand_ref(f, x, defs), rt) or same_obj(expand_ref(f, x, defs), raw):
+                        keep.append(w.pos)
+                # the block may travel through a local that is set on several branches (`newData = other.data` on this one): the
+                # definition that takes the block lies on every path through the increment, and the handle is set from that local afterwards
+                if not (keep and C.paths_all_pass(f, ipos, set(keep))):
+                    for did, dl in defs.items():
+                        for kind, nd, init in dl:
+                            if init is None or kind == "addr" or f.node_pos(nd) is None:
+                                continue
+                            it = q.no_casts(f.r(init))
+                            if not any(same_obj(nm, it) for nm in names | {expand_ref(f, x, defs)}):
+                                continue
+                            lname = next((n_["ref"]["n"] for n_ in f.nodes if n_["k"] == "DeclRefExpr" and n_["ref"].get("id") == did), None)
+                            lw = [w.pos for w in writes if q.no_casts(f.r(w.rhs)) == lname]
+                            others = [f.node_pos(o[1]) for o in dl if o[1] != nd and o[2] is not None and f.node_pos(o[1]) is not None]
+                            if lw and C.paths_all_pass(f, ipos, {f.node_pos(nd)}) and \
+                               f.find_path(f.node_pos(nd), {f.exit_pos()}, avoid=set(lw)) is None and \
+                               not any(f.find_path(f.node_pos(nd), {o_}) is not None and any(f.find_path(o_, {w_}) is not None for w_ in lw) for o_ in others):
+                                keep = [f.node_pos(nd)]
+                if same_obj(x, "this->" + ptr) or same_obj(expand_ref(f, x, defs), "this->" + ptr):
+                    # the own block's counter (copy constructors initialise the pointer first): the handle already holds it
+                    chk.ok(rid, f, "increment of the block the handle already points to", f.where(i), "x is this->%s" % ptr, nontrivial=False)
+                    continue
+                if keep and C.paths_all_pass(f, ipos, set(keep)):
+                    chk.ok(rid, f, "reference to %s acquired and kept" % x.replace("this->", ""), f.where(i), "store of the block on every path through the increment", evals=2)
+                else:
+                    chk.bad(rid, f, "reference-acquired-but-not-kept:" + x.replace("this->", ""), f.where(i),
+                            "a path raises the counter of `%s` and leaves without storing that block into this handle: one reference too many is "
+                            "counted for ever, the block is never released (and never seen as exclusively owned again)" % x, evals=2)
+
+
+def expand_ref(f, x, defs):
+    """`otherData` -> what the local was initialised with (one step), for comparing designations"""
+    for n in f.nodes:
+        if n["k"] == "DeclRefExpr" and n["ref"].get("dk") == "local" and n["ref"]["n"] == x:
+            ini = q.single_def(f, n["ref"]["id"], defs)
+            if ini is not None:
+                return q.no_casts(f.r(ini))
+            break
+    return x
